@@ -28,6 +28,7 @@ structure InvF (a : ACfg) (s : St) : Prop where
   fed_eq : s.fed = (entered s.inner.trace).filterMap (valOf a)
   flow : s.gone2.map (·.1) ++ s.vres2.toList ++ s.q2 = s.fed
   deliv : appDelivered s.trace2 = s.taken2
+  lost : s.lost2 = []
 
 /-- the part of the state `InvF` reads -/
 def fcore (s : St) : List Sess.Obs × List Nat × List (Nat × Bool) × Option Nat × List Nat × List Nat :=
@@ -37,7 +38,7 @@ theorem InvF.of_fcore {a : ACfg} {s s' : St} (h : fcore s' = fcore s) (i : InvF 
   simp only [fcore, Prod.mk.injEq] at h
   obtain ⟨h1, h2, h3, h4, h5, h6⟩ := h
   exact ⟨by rw [h2, h1]; exact i.fed_eq, by rw [h3, h4, h5, h2]; exact i.flow,
-    by rw [h6]; unfold St.taken2; rw [h3]; exact i.deliv⟩
+    by rw [h6]; unfold St.taken2; rw [h3]; exact i.deliv, by unfold St.lost2; rw [h3]; exact i.lost⟩
 
 theorem trace2_emit2 (s : St) (o : AObs) : (s.emit2 o).trace2 = s.trace2 ++ [o] := by
   simp [St.trace2, St.emit2, List.filterMap_append, PObs.appOf]
@@ -134,7 +135,7 @@ theorem innerStep_InvF {a : ACfg} {s : St} (i : InvF a s) (e : Sess.Ev) : InvF a
     rw [← hd]; exact Sess.step_trace_eq _ _ _
   obtain ⟨f1, f2, f3, f4, f5, f6⟩ := feed_fields a (entered d)
     { s with inner := Sess.step (innerCfg a) s.inner e, tr := s.tr ++ d.map .inner }
-  refine ⟨?_, ?_, ?_⟩
+  refine ⟨?_, ?_, ?_, by unfold St.lost2; rw [f3]; exact i.lost⟩
   · rw [f1, f6]
     show s.fed ++ _ = _
     rw [htr, entered_append, List.filterMap_append, i.fed_eq]
@@ -295,6 +296,12 @@ theorem taken2_append_true (g : List (Nat × Bool)) (v : Nat) :
     ((g ++ [(v, true)]).filter (·.2)).map (·.1) = (g.filter (·.2)).map (·.1) ++ [v] := by
   simp [List.filter_append]
 
+theorem lost2_append_true {s : St} (h : s.lost2 = []) (v : Nat) :
+    ((s.gone2 ++ [(v, true)]).filter (fun p => !p.2)).map (·.1) = [] := by
+  have : ((s.gone2 ++ [(v, true)]).filter (fun p => !p.2)).map (·.1) = (s.gone2.filter (fun p => !p.2)).map (·.1) := by
+    simp [List.filter_append]
+  rw [this]; exact h
+
 theorem taken2_append_false (g : List (Nat × Bool)) (l : List Nat) :
     ((g ++ l.map (fun v => (v, false))).filter (·.2)).map (·.1) = (g.filter (·.2)).map (·.1) := by
   simp [List.filter_append, List.filter_map]
@@ -303,7 +310,7 @@ theorem taken2_append_false (g : List (Nat × Bool)) (l : List Nat) :
 theorem InvF.deliver_head {a : ACfg} {s : St} (i : InvF a s) {v : Nat} {q : List Nat} {o : AObs}
     (hq : s.q2 = v :: q) (hv : s.vres2 = none) (ho : deliveredA o = some v) :
     InvF a (({ s with q2 := q, gone2 := s.gone2 ++ [(v, true)] } : St).emit2 o) := by
-  refine ⟨i.fed_eq, ?_, ?_⟩
+  refine ⟨i.fed_eq, ?_, ?_, lost2_append_true i.lost v⟩
   · show (s.gone2 ++ [(v, true)]).map (·.1) ++ s.vres2.toList ++ q = s.fed
     rw [← i.flow, hq, hv]; simp
   · rw [trace2_emit2]
@@ -314,15 +321,13 @@ theorem InvF.deliver_head {a : ACfg} {s : St} (i : InvF a s) {v : Nat} {q : List
     simp only [appDelivered, St.taken2] at this
     rw [this]
 
-/-- a cancelled receive drops whatever the helper task held -/
-theorem InvF.drop_held {a : ACfg} {s : St} (i : InvF a s) :
-    InvF a { s with vres2 := none, rcv2Busy := false, gone2 := s.gone2 ++ s.vres2.toList.map (fun v => (v, false)) } := by
-  refine ⟨i.fed_eq, ?_, ?_⟩
-  · show (s.gone2 ++ s.vres2.toList.map (fun v => (v, false))).map (·.1) ++ [] ++ s.q2 = s.fed
-    rw [← i.flow]
-    cases s.vres2 <;> simp
-  · show appDelivered s.trace2 = ((s.gone2 ++ s.vres2.toList.map (fun v => (v, false))).filter (·.2)).map (·.1)
-    rw [taken2_append_false]; exact i.deliv
+/-- a cancelled receive puts whatever the helper task held back in front of the queue -/
+theorem InvF.unhold {a : ACfg} {s : St} (i : InvF a s) :
+    InvF a { s with vres2 := none, rcv2Busy := false, q2 := s.vres2.toList ++ s.q2 } := by
+  refine ⟨i.fed_eq, ?_, i.deliv, i.lost⟩
+  show s.gone2.map (·.1) ++ [] ++ (s.vres2.toList ++ s.q2) = s.fed
+  rw [← i.flow]
+  simp
 
 theorem dispHandle2_InvF {a : ACfg} {s : St} (i : InvF a s) (v : Nat) : InvF a (dispHandle2 a s v) := by
   unfold dispHandle2
@@ -375,8 +380,8 @@ theorem stepRun2_InvF {a : ACfg} {s : St} (i : InvF a s) (t : ATid) : InvF a (st
       · exact InvF.of_fcore (fcore_finish2 _ _) ((i0.emit2 rfl).emit2 rfl)
       · exact startClose_InvF i0 _ _
     · exact InvF.of_fcore (fcore_finish2 _ _) ((i0.emit2 rfl).emit2 rfl)
-    · -- a cancelled receive: whatever the helper held is dropped
-      have i1 := i0.drop_held
+    · -- a cancelled receive: whatever the helper held goes back in front of the queue
+      have i1 := i0.unhold
       split
       · exact InvF.of_fcore (fcore_finish2 _ _) (i1.emit2 rfl)
       · exact InvF.of_fcore (fcore_finish2 _ _) (i1.emit2 rfl)
@@ -406,14 +411,14 @@ theorem stepRun2_InvF {a : ACfg} {s : St} (i : InvF a s) (t : ATid) : InvF a (st
             cases h : s0.vres2 with
             | none => rfl
             | some x => simp [h] at hv
-          refine InvF.of_fcore (fcore_finish2 _ _) ⟨i0.fed_eq, ?_, i0.deliv⟩
+          refine InvF.of_fcore (fcore_finish2 _ _) ⟨i0.fed_eq, ?_, i0.deliv, i0.lost⟩
           show s0.gone2.map (·.1) ++ [v] ++ q = s0.fed
           rw [← i0.flow, hqu, hv']; simp
     · -- the caller resumes
       rename_i u _
       split
       · rename_i v hv
-        refine InvF.of_fcore (fcore_finish2 _ _) ⟨i0.fed_eq, ?_, ?_⟩
+        refine InvF.of_fcore (fcore_finish2 _ _) ⟨i0.fed_eq, ?_, ?_, lost2_append_true i0.lost v⟩
         · show (s0.gone2 ++ [(v, true)]).map (·.1) ++ [] ++ s0.q2 = s0.fed
           rw [← i0.flow, hv]; simp
         · rw [trace2_emit2]
@@ -470,7 +475,7 @@ theorem step_InvF {a : ACfg} {s : St} (i : InvF a s) (ev : Ev) : InvF a (step a 
     · exact startRecv2_InvF i u
   | appCancel u => exact InvF.of_fcore (fcore_cancel2 _ _) i
 
-theorem InvF.init (a : ACfg) : InvF a {} := ⟨rfl, rfl, rfl⟩
+theorem InvF.init (a : ACfg) : InvF a {} := ⟨rfl, rfl, rfl, rfl⟩
 
 /-- **The flow invariant holds in every reachable state.** -/
 theorem runEvs_InvF (a : ACfg) (evs : List Ev) : InvF a (runEvs a {} evs) := by
